@@ -9,7 +9,7 @@ MANIFEST = {
          "and state; uv__run_closing_handles delivers exactly one close callback per handle queued before it started (handles "
          "closed from a close callback wait for the next iteration); requests in flight on a udp handle get their callback "
          "(UV_ECANCELED if not yet sent) before the close callback; after the close callback the handle's record no longer exists "
-         "in the model and no later event mentions it.  Tied to the working tree by the loop simulator (real library, virtual "
+         "in the model and no later event mentions it.  The as-first-written statements were too weak (false, with Lean witnesses); the corrected theorems close_cb_exactly_once (invariant CloseWF in every reachable state), reqs_before_close_cb, silence_after_close_cb, req_cb_at_most_once and closing_handle_frozen are proved for every script and program.  Tied to the working tree by the loop simulator (real library, virtual "
          "clock, deterministic poller; closes issued from main, from the handle's own callback and from sibling callbacks in the "
          "same phase / same epoll batch) with a line-by-line diff against the model, a lifecycle monitor on the implementation "
          "log, and ASan on individually allocated handles/requests freed in their final callback.",
